@@ -859,6 +859,242 @@ def work_pairs(item, acc, tier):
 
 
 # =====================================================================================================================
+# CONNS part: which thread opened a connection inside the block x exit kind x storage
+# =====================================================================================================================
+# "the instance's connections are closed when the block is left" is quantified over every connection made inside the
+# block, whoever made it.  Threads: the one that enters and leaves the block (the main thread, or a worker that lives
+# around the block), a thread started inside the block and joined inside it (after all connections were made, before
+# the block is left: no two threads ever run fakesnow code at the same time), and - when a worker runs the block - the
+# main thread.  One scenario: enter patch(db_path=<storage>) / open the connections of the sequence, each writes one
+# committed row into one table / leave / every connection must raise when used / a new patch() with the same storage
+# can be entered, connect works there and, with db_path, the committed rows are there / leave.
+CONN_BLOCK_THREADS = ["main-thread", "worker-thread"]
+CONN_EXITS = EXIT_MODES
+CONN_STORAGE = ["memory", "db_path"]
+CONN_MAX_OPENERS = {"quick": 2, "thorough": 3}
+
+
+def conn_openers(block):
+    """who can open a connection inside the block, relative to the thread that runs the block"""
+    return ["block-thread", "new-thread"] + (["main-thread"] if block != "main-thread" else [])
+
+
+def conn_sequences(block, tier):
+    al = conn_openers(block)
+    return [s for k in range(1, CONN_MAX_OPENERS[tier] + 1) for s in itertools.product(al, repeat=k)]
+
+
+def conn_items():
+    return [("patch-conns", b, e, s) for b in CONN_BLOCK_THREADS for e in CONN_EXITS for s in CONN_STORAGE]
+
+
+class _Worker:
+    """a thread that runs the callables handed to it, one at a time, until stopped (the caller waits for each)"""
+
+    def __init__(self):
+        import queue
+        import threading
+
+        self.q = queue.Queue()
+        self.t = threading.Thread(target=self._loop, daemon=True)
+        self.t.start()
+
+    def _loop(self):
+        while True:
+            job = self.q.get()
+            if job is None:
+                return
+            fn, box, done = job
+            try:
+                box["value"] = fn()
+            except BaseException as e:  # noqa: BLE001
+                box["error"] = e
+            done.set()
+
+    def call(self, fn):
+        import threading
+
+        box, done = {}, threading.Event()
+        self.q.put((fn, box, done))
+        done.wait()
+        if "error" in box:
+            raise box["error"]
+        return box["value"]
+
+    def stop(self):
+        self.q.put(None)
+        self.t.join()
+
+
+def _leave(cm, mode):
+    """what a `with` statement does when its body ends normally / raises -> name of an exception that is not the body's"""
+    try:
+        if mode == "normal":
+            cm.__exit__(None, None, None)
+        else:
+            try:
+                raise _Boom("body")
+            except _Boom as e:
+                try:
+                    cm.__exit__(type(e), e, e.__traceback__)
+                except _Boom as e2:
+                    if e2 is not e:
+                        raise
+    except Exception as e:  # noqa: BLE001
+        return exc_name(e)
+    return None
+
+
+def _open_and_write(i):
+    """connect through the standard target, write one committed row -> (what happened, connection | None)"""
+    import snowflake.connector as sc
+
+    try:
+        c = sc.connect(database="C20CONNS", schema="S")
+        cur = c.cursor()
+        cur.execute("create table if not exists T (A int)")
+        cur.execute(f"insert into T values ({i})")
+        n = cur.execute("select count(*) from T").fetchall()
+        return ("ok", repr(n)), c
+    except Exception as e:  # noqa: BLE001
+        return ("err", exc_name(e)), None
+
+
+def run_conns_scenario(block, seq, mode, storage, dbdir):
+    import fakesnow
+    import snowflake.connector as sc
+    import snowflake.connector.pandas_tools as pt
+
+    o = originals()
+    force_restore()
+    fresh_fakesnow()
+    kw = {"db_path": dbdir} if storage == "db_path" else {}
+    obs = {"block": block, "openers": list(seq), "exit": mode, "storage": storage}
+    blockw = _Worker() if block != "main-thread" else None
+    on_block = blockw.call if blockw else (lambda fn: fn())
+    extra, conns, cm2 = [], [], None
+    try:
+        box = {}
+
+        def enter():
+            box["cm"] = fakesnow.patch(**kw)
+            box["cm"].__enter__()
+
+        try:
+            on_block(enter)
+            obs["enter_raised"] = None
+        except Exception as e:  # noqa: BLE001
+            obs["enter_raised"] = exc_name(e)
+            return obs
+        try:
+            opened = []
+            for i, who in enumerate(seq):
+                if who == "block-thread":
+                    res, c = on_block(lambda i=i: _open_and_write(i))
+                elif who == "main-thread":
+                    res, c = _open_and_write(i)
+                else:
+                    w = _Worker()
+                    extra.append(w)
+                    res, c = w.call(lambda i=i: _open_and_write(i))
+                opened.append(res)
+                conns.append(c)
+            obs["opened"] = opened
+            # the threads started inside the block end inside the block
+            while extra:
+                extra.pop().stop()
+        finally:
+            obs["exit_raised"] = on_block(lambda: _leave(box["cm"], mode))
+        obs["restored"] = (sc.connect is o["connect"], pt.write_pandas is o["write_pandas"])
+        obs["conns"] = [conn_state(c) for c in conns]
+        # a new block with the same storage
+        again = {}
+        try:
+            cm2 = fakesnow.patch(**kw)
+            cm2.__enter__()
+            again["enter"] = None
+        except Exception as e:  # noqa: BLE001
+            again["enter"] = exc_name(e)
+            cm2 = None
+        if cm2 is not None:
+            try:
+                c = sc.connect(database="C20CONNS", schema="S")
+                again["select 1"] = repr(c.cursor().execute("select 1").fetchall())
+                if storage == "db_path":
+                    again["rows"] = repr(sorted(c.cursor().execute("select A from T").fetchall()))
+            except Exception as e:  # noqa: BLE001
+                again["error"] = exc_name(e)
+        obs["again"] = again
+        return obs
+    finally:
+        if cm2 is not None:
+            with contextlib.suppress(BaseException):
+                cm2.__exit__(None, None, None)
+        for w in extra:
+            w.stop()
+        if blockw:
+            blockw.stop()
+        # whatever was left open must not reach the next scenario
+        for c in conns:
+            with contextlib.suppress(BaseException):
+                c.close()
+            with contextlib.suppress(BaseException):
+                c._duck_conn.close()  # noqa: SLF001
+        force_restore()
+
+
+def judge_conns(obs):
+    """-> [(clause, class, failed, detail)]"""
+    res = []
+    mode, storage, seq = obs["exit"], obs["storage"], obs["openers"]
+    base = {"block_run_by": obs["block"], "connections_opened_by": seq, "exit": mode, "storage": storage}
+    res.append(("C20.enter", f"after=start,storage={storage}", obs["enter_raised"] is not None, dict(base, raised=obs["enter_raised"])))
+    if obs["enter_raised"] is not None:
+        return res
+    for who, r in zip(seq, obs["opened"]):
+        res.append(("C20.inside", f"target=std-connect,called-by={who}", r[0] != "ok", dict(base, connect_and_write=list(r))))
+    res.append(("C20.exit_clean", f"exit={mode}", obs["exit_raised"] is not None, dict(base, raised=obs["exit_raised"])))
+    for k, ok in zip(("std-connect", "std-write_pandas"), obs["restored"]):
+        res.append(("C20.restore_after_exit", f"target={k},exit={mode}", not ok, dict(base, target=k)))
+    for j, (who, st) in enumerate(zip(seq, obs["conns"])):
+        if st != "none":
+            res.append(("C20.closed", f"opened-by={who},exit={mode},storage={storage}", st == "open", dict(base, connection=j, connection_after_exit=st)))
+    if all(r[0] == "ok" for r in obs["opened"]):
+        again = obs["again"]
+        exp_rows = repr([(i,) for i in range(len(seq))])
+        ok = again.get("enter") is None and again.get("select 1") == "[(1,)]" and (storage != "db_path" or again.get("rows") == exp_rows)
+        who = "+".join(sorted(set(seq)))
+        expected = {"enter": None, "select 1": "[(1,)]", **({"rows": exp_rows} if storage == "db_path" else {})}
+        res.append(("C20.closed.storage_reusable", f"opened-by={who},exit={mode},storage={storage}", not ok, dict(base, new_block=again, expected=expected)))
+    return res
+
+
+def work_conns(item, acc, tier):
+    _tag, block, mode, storage = item
+    n = 0
+    with sandbox("c20t", {}) as d:
+        for j, seq in enumerate(conn_sequences(block, tier)):
+            dbdir = os.path.join(d, f"db{j}")
+            os.makedirs(dbdir)
+            obs = run_conns_scenario(block, seq, mode, storage, dbdir)
+            acc.count("evaluations")
+            acc.count("traces")
+            acc.count("transitions", 3 + len(seq))
+            acc.count("patch_connection_scenarios")
+            acc.obs(sorted(obs.items()))
+            acc.outcome(("conns", obs.get("enter_raised"), obs.get("exit_raised"), tuple(obs.get("conns", ())), tuple(sorted((obs.get("again") or {}).items()))))
+            acc.nontrivial(("conns", block, seq, mode, storage))
+            for clause, cls, failed, detail in judge_conns(obs):
+                acc.member(clause, cls, failed)
+                if failed:
+                    acc.violation(clause, cls, detail, {"part": "patch-conns", "block": block, "openers": list(seq), "exit": mode, "storage": storage})
+            n += 1
+        if (block, mode, storage) == ("main-thread", "normal", "memory"):
+            acc.sample({"part": "patch-conns", "block_run_by": block, "exit": mode, "storage": storage, "connections_opened_by_each_of": [list(s) for s in conn_sequences(block, tier)]})
+    return n
+
+
+# =====================================================================================================================
 # OPTIONS part (differential: patch(**o) vs FakeSnow(**o))
 # =====================================================================================================================
 OPTION_VALUES = {
@@ -1006,16 +1242,40 @@ RECORDER = """import sys
 import snowflake.connector
 import snowflake.connector.pandas_tools
 
-_s = sys.modules["_c20_sink"]
-_s.records.append(
-    {{
-        "me": {me!r},
-        "argv": list(sys.argv),
-        "name": __name__,
-        "connect_is_orig": snowflake.connector.connect is _s.orig_connect,
-        "wp_is_orig": snowflake.connector.pandas_tools.write_pandas is _s.orig_wp,
-    }}
-)
+_s = sys.modules.get("_c20_sink")
+if _s is not None:
+    _s.records.append(
+        {{
+            "me": {me!r},
+            "argv": list(sys.argv),
+            "name": __name__,
+            "connect_is_orig": snowflake.connector.connect is _s.orig_connect,
+            "wp_is_orig": snowflake.connector.pandas_tools.write_pandas is _s.orig_wp,
+        }}
+    )
+else:
+    # run by a `python -m fakesnow` process of its own: the record goes to the file the harness names (the originals
+    # are plain functions, the fakes are mock objects)
+    import json
+    import os
+    import types
+
+    import fakesnow
+
+    with open(os.environ["C20_SINK_FILE"], "a") as _f:
+        _f.write(
+            json.dumps(
+                {{
+                    "me": {me!r},
+                    "argv": list(sys.argv),
+                    "name": __name__,
+                    "connect_is_orig": isinstance(snowflake.connector.connect, types.FunctionType),
+                    "wp_is_orig": isinstance(snowflake.connector.pandas_tools.write_pandas, types.FunctionType),
+                    "fakesnow": fakesnow.__file__,
+                }}
+            )
+            + "\\n"
+        )
 """
 
 E2E_TARGET = """import sys
@@ -1097,7 +1357,10 @@ def run_cli(argv):
 
 def cli_shape(p):
     last = p.opt_forms[-1] if p.opt_forms else "none"
-    return f"last-opt={last},target={p.target_form},targs={'n' if p.targs else '0'}"
+    # (an empty string among the target's arguments is a shape of its own: a launcher that loses falsy arguments fails
+    # on every such line and on no other)
+    targs = "0" if not p.targs else ("n-with-empty-string" if "" in p.targs else "n")
+    return f"last-opt={last},target={p.target_form},targs={targs}"
 
 
 def judge_cli(argv, p, out, table=ref.DEFAULT_TABLE):
@@ -1187,6 +1450,111 @@ def shaped_lines(table):
 
 SHAPED_CHUNKS = 16
 
+# ---- the target's own arguments: "arbitrary target arguments" includes the falsy-looking ones -------------------------
+# the empty string, '0', a blank, the option terminator, a plain word, and tokens that look like fakesnow's own options
+TARG_TOKENS = ["", "0", " ", "--", "a", "-d", "-m"]
+TARG_MAX_LEN = {"quick": 3, "thorough": 4}
+TARG_CHUNKS = 16
+
+
+def target_namings(table):
+    """every way of naming the target: [(name, tokens)]"""
+    return [("path", ["script.py"])] + ref.module_forms(table, "mod") + [("-- path", ["--", "script.py"])]
+
+
+def targ_lines(table, tier):
+    """[own option in each spelling | none] + [each way of naming the target] + every sequence of length
+    1..TARG_MAX_LEN over TARG_TOKENS as the target's arguments (length 0 is among the shaped lines)"""
+    own = [("none", [])] + ref.own_option_forms(table, "x")
+    lines = []
+    for _f, o in own:
+        for _t, t in target_namings(table):
+            for k in range(1, TARG_MAX_LEN[tier] + 1):
+                for a in itertools.product(TARG_TOKENS, repeat=k):
+                    lines.append(tuple(o + t) + a)
+    return list(dict.fromkeys(lines))
+
+
+# the same through the other entry point, `python -m fakesnow ...` in a process of its own (one process per line, so a
+# smaller product): target named by path and by module, without and with an own option before it
+PROC_CHUNKS = 16
+
+
+def proc_lines(table, tier):
+    own = ref.own_option_forms(table, "x")
+    mods = ref.module_forms(table, "mod")
+    bare = [["script.py"], mods[0][1]]  # path, first module form (-m mod)
+    with_own = [own[-1][1] + ["script.py"], own[2 % len(own)][1] + mods[-2 % len(mods)][1]] if own else []
+    n_bare, n_own = (2, 1) if tier == "quick" else (3, 2)
+    lines = []
+    for naming, n in [(b, n_bare) for b in bare] + [(w, n_own) for w in with_own]:
+        for k in range(0, n + 1):
+            for a in itertools.product(TARG_TOKENS, repeat=k):
+                lines.append(tuple(naming) + a)
+    # longer lists over the empty string and a word only (every position of the empty string among three / four)
+    for naming in bare:
+        for k in (n_bare + 1,) if tier == "quick" else (n_bare + 1, n_bare + 2):
+            for a in itertools.product(["", "a"], repeat=k):
+                lines.append(tuple(naming) + a)
+    return list(dict.fromkeys(lines))
+
+
+def run_cli_process(argv, d):
+    """One real `python -m fakesnow <argv>` in a process of its own, in the scratch directory d."""
+    import json
+    import subprocess
+
+    sink = os.path.join(d, f"_c20_sink_{os.getpid()}.jsonl")
+    if os.path.exists(sink):
+        os.remove(sink)
+    env = dict(os.environ)
+    env["C20_SINK_FILE"] = sink
+    env["PYTHONPATH"] = os.pathsep.join([core.REPO] + [p for p in env.get("PYTHONPATH", "").split(os.pathsep) if p])
+    env["PYTHONDONTWRITEBYTECODE"] = "1"
+    r = subprocess.run([sys.executable, "-m", "fakesnow", *argv], cwd=d, env=env, capture_output=True, text=True, timeout=600)
+    recs = []
+    if os.path.exists(sink):
+        with open(sink) as f:
+            recs = [json.loads(line) for line in f if line.strip()]
+        os.remove(sink)
+    for rec in recs:
+        f = os.path.realpath(rec.pop("fakesnow"))
+        if not f.startswith(os.path.realpath(core.REPO) + os.sep):
+            raise core.HarnessError(f"C20: `python -m fakesnow` ran {f}, expected the tree under {core.REPO}")
+    return {"end": ("exit", r.returncode), "records": recs, "stderr_tail": r.stderr.strip()[-300:]}
+
+
+def judge_cli_process(argv, p, out):
+    """the target ran exactly once, as the fake, with exactly its own arguments"""
+    recs = out["records"]
+    base = {"command": ["python", "-m", "fakesnow", *argv], "ran": [{"target": r["me"], "argv": r["argv"]} for r in recs], "exit_code": out["end"][1], "stderr_tail": out["stderr_tail"]}
+    good = len(recs) == 1 and recs[0]["me"] == list(p.target) and recs[0]["argv"][1:] == list(p.targs)
+    res = [("C20.cli.args", cli_shape(p) + ",entry=python -m fakesnow", not good, dict(base, expected={"target": list(p.target), "argv[1:]": list(p.targs)}))]
+    if good:
+        res.append(("C20.cli.fake_on", f"target={p.target[0]},entry=python -m fakesnow", recs[0]["connect_is_orig"] or recs[0]["wp_is_orig"], base))
+    return res
+
+
+def check_argv_process(argv, acc, table, d):
+    p = ref.parse(argv, table)
+    if p.status != "ok" or p.target is None:
+        raise core.HarnessError(f"C20: constructed line {argv} is not a well-formed line naming a target for the reference")
+    out = run_cli_process(argv, d)
+    acc.count("evaluations")
+    acc.count("argv_process_lines")
+    acc.count("argv_target_executions", len(out["records"]))
+    acc.obs((argv, out["end"], tuple((tuple(r["me"]), tuple(r["argv"][1:]), r["connect_is_orig"]) for r in out["records"])))
+    acc.nontrivial(("argv-process", argv))
+    verdicts = judge_cli_process(argv, p, out)
+    acc.outcome(("cli-process", cli_shape(p), out["end"], len(out["records"]), tuple(f for _c, _k, f, _d in verdicts)))
+    for clause, cls, failed, detail in verdicts:
+        acc.member(clause, cls, failed)
+        if failed:
+            acc.violation(clause, cls, detail, {"part": "cli-process", "argv": list(argv)})
+    if argv == ("script.py", "a", "", "a"):
+        acc.sample({"part": "cli-process", "command": ["python", "-m", "fakesnow", *argv], "target_saw": [r["argv"] for r in out["records"]]})
+    return verdicts
+
 
 SAMPLE_ARGV = ("--db_path=x", "script.py", "a")
 
@@ -1226,6 +1594,14 @@ def work_argv(item, acc, tier):
             seqs = argv_block(item[1], item[2], toks)
         elif item[0] == "argv-short":
             seqs = (s for k in range(0, item[1] + 1) for s in itertools.product(toks, repeat=k))
+        elif item[0] == "argv-targs":
+            seqs = targ_lines(table, tier)[item[1] :: TARG_CHUNKS]
+            counter = "argv_target_argument_lines"
+        elif item[0] == "argv-proc":
+            for argv in proc_lines(table, tier)[item[1] :: PROC_CHUNKS]:
+                check_argv_process(tuple(argv), acc, table, d)
+                n += 1
+            return n
         else:
             seqs = shaped_lines(table)[item[1] :: SHAPED_CHUNKS]
             counter = "argv_shaped_lines"
@@ -1300,7 +1676,9 @@ def work(item, acc, tier):
         return work_combined(item, acc, tier)
     if tag == "patch-chain":
         return work_chain(item, acc, tier)
-    if tag in ("argv", "argv-short", "argv-shaped"):
+    if tag == "patch-conns":
+        return work_conns(item, acc, tier)
+    if tag in ("argv", "argv-short", "argv-shaped", "argv-targs", "argv-proc"):
         return work_argv(item, acc, tier)
     if tag == "options":
         return work_options(item, acc, tier)
@@ -1386,6 +1764,12 @@ def run(ctx: core.Ctx):
     # ---- patch: target lists over helper modules that import each other
     ctx.pmap(work, [("patch-chain", t) for t in CHAIN_LISTS], chunk=1)
     ctx.extra["patch_chain_target_lists"] = {k: list(v) for k, v in CHAIN_LISTS.items()}
+    # ---- patch: who opened a connection inside the block x exit kind x storage
+    res = ctx.pmap(work, conn_items(), chunk=1)
+    n_conns = sum(len(conn_sequences(b, tier)) for b in CONN_BLOCK_THREADS) * len(CONN_EXITS) * len(CONN_STORAGE)
+    if sum(n for _i, n in res) != n_conns:
+        raise core.HarnessError(f"C20: ran {sum(n for _i, n in res)} connection scenarios, there are {n_conns}")
+    ctx.extra["patch_connection_scenarios"] = {"block_run_by": CONN_BLOCK_THREADS, "exits": CONN_EXITS, "storage": CONN_STORAGE, "openers": {b: conn_openers(b) for b in CONN_BLOCK_THREADS}, "max_connections": CONN_MAX_OPENERS[tier], "scenarios": n_conns}
     for st in seen:
         ctx.acc.add("states", st)
     ctx.acc.counters["patch_max_depth"] = depth
@@ -1410,6 +1794,17 @@ def run(ctx: core.Ctx):
     n_shaped = len(shaped_lines(table))
     if sum(n for _i, n in res) != n_shaped or ctx.acc.counters.get("argv_shaped_lines") != n_shaped:
         raise core.HarnessError(f"C20: ran {sum(n for _i, n in res)} constructed lines, there are {n_shaped}")
+    res = ctx.pmap(work, [("argv-targs", k) for k in range(TARG_CHUNKS)], chunk=1)
+    n_targs = len(targ_lines(table, tier))
+    if sum(n for _i, n in res) != n_targs or ctx.acc.counters.get("argv_target_argument_lines") != n_targs:
+        raise core.HarnessError(f"C20: ran {sum(n for _i, n in res)} target-argument lines, there are {n_targs}")
+    res = ctx.pmap(work, [("argv-proc", k) for k in range(PROC_CHUNKS)], chunk=1, recheck=False)
+    n_proc = len(proc_lines(table, tier))
+    if sum(n for _i, n in res) != n_proc or ctx.acc.counters.get("argv_process_lines") != n_proc:
+        raise core.HarnessError(f"C20: ran {sum(n for _i, n in res)} `python -m fakesnow` lines, there are {n_proc}")
+    ctx.extra["argv_target_argument_tokens"] = TARG_TOKENS
+    ctx.extra["argv_target_argument_lines"] = n_targs
+    ctx.extra["argv_process_lines"] = n_proc
     ctx.exhaustive = True
     ctx.extra["bound"] = f"patch: fixpoint (frontier emptied at depth {depth}); argv: all sequences of length <= {MAX_LEN[tier]}"
     ctx.extra["argv_tokens"] = toks
@@ -1437,6 +1832,11 @@ def replay(payload):
         print("observed:", {k: v for k, v in obs.items()})
         print("state after:", post)
         verdicts = judge_patch(pre, op, obs, imp)
+    elif part == "patch-conns":
+        with sandbox("c20r", {}) as d:
+            obs = run_conns_scenario(r["block"], tuple(r["openers"]), r["exit"], r["storage"], d)
+        print("observed:", obs)
+        verdicts = judge_conns(obs)
     elif part == "patch-history":
         hist = [tuple(h) for h in r["history"]]
         with sandbox("c20r", {f"{m}.py": s for m, s in HELPER_SRC.items()}):
@@ -1460,6 +1860,17 @@ def replay(payload):
         print("reference:", p)
         print("observed:", out)
         verdicts = judge_cli(argv, p, out, table)
+    elif part == "cli-process":
+        argv = tuple(r["argv"])
+        with sandbox("c20r", cli_files()) as d:
+            os.chdir(d)
+            table = cli_table()
+            p = ref.parse(argv, table)
+            out = run_cli_process(argv, d)
+        print("command: python -m fakesnow", list(argv))
+        print("reference:", p)
+        print("observed:", out)
+        verdicts = judge_cli_process(argv, p, out)
     elif part == "options":
         with sandbox("c20r", {}) as d:
             os.chdir(d)
